@@ -143,7 +143,31 @@ impl Check for C13 {
             if crate::real::canon_toml_table(&ta, true).replace("f-nan", "f+nan") != crate::real::canon_toml_value(&b, true).replace("f-nan", "f+nan") {
                 return Err((dtc(v), format!("toml::Table::try_from gives {} but parsing the serialized text gives {}", crate::real::canon_toml_table(&ta, true), crate::real::canon_toml_value(&b, true))));
             }
-            // toml_edit's value deserializer on the value text of a one-entry wrapper
+            // the single-value routes: v written as ONE value (an inline table) by either value serializer, read back by
+            // every value deserializer
+            use serde::de::IntoDeserializer as _;
+            let vtexts: Vec<(&'static str, Result<String, String>)> = vec![
+                ("toml_edit::ser::ValueSerializer", v.serialize(toml_edit::ser::ValueSerializer::new()).map(|x| x.to_string()).map_err(|e| e.to_string())),
+                ("toml::ser::ValueSerializer", {
+                    let mut s = String::new();
+                    v.serialize(toml::ser::ValueSerializer::new(&mut s)).map(|_| s).map_err(|e| e.to_string())
+                }),
+            ];
+            for (sname, vt) in vtexts {
+                let vt = vt.map_err(|e| (None, format!("{} fails although toml::to_string succeeds: {}", sname, e)))?;
+                let vroutes: Vec<(&'static str, Result<T, String>)> = vec![
+                    ("toml::de::ValueDeserializer::new", T::deserialize(toml::de::ValueDeserializer::new(&vt)).map_err(|e| e.message().to_string())),
+                    ("str::parse::<toml_edit::de::ValueDeserializer>", vt.parse::<toml_edit::de::ValueDeserializer>().map_err(|e| e.message().to_string()).and_then(|d| T::deserialize(d).map_err(|e| e.message().to_string()))),
+                    ("toml_edit::Value::into_deserializer", vt.parse::<toml_edit::Value>().map_err(|e| e.message().to_string()).and_then(|x| T::deserialize(x.into_deserializer()).map_err(|e| e.message().to_string()))),
+                ];
+                for (name, got) in &vroutes {
+                    match got {
+                        Ok(x) if x == v => {}
+                        Ok(x) => return Err((None, format!("single-value route {} on {:?} (written by {}) yields {:?}", name, vt, sname, x))),
+                        Err(e) => return Err((None, format!("single-value route {} fails on {:?} (written by {}): {}", name, vt, sname, e))),
+                    }
+                }
+            }
             Ok(())
         });
         match r {
@@ -215,7 +239,7 @@ pub fn c13(tier: Tier) -> i32 {
         "C13",
         tier,
         "model_checking",
-        "for every value v of the derive family and text = toml::to_string(v): nine decoding routes (toml::from_str, toml_edit::de::from_str / from_slice / from_document on both document kinds, toml::Deserializer, toml::Value / toml::Table then try_into, toml::Value as Deserializer) must all succeed and return v; toml::Value::try_from(v) and toml::Table::try_from(v) must equal parsing the serialized text; for every text of the document universes seven routes into toml::Value / toml::Table must agree on success and on the tree; non-trivial = distinct serializable values and distinct accepted documents",
+        "for every value v of the derive family and text = toml::to_string(v): nine document routes (toml::from_str, toml_edit::de::from_str / from_slice / from_document on both document kinds, toml::Deserializer, toml::Value / toml::Table then try_into, toml::Value as Deserializer) and three single-value routes (v written as one inline-table value by either ValueSerializer, read by toml::de::ValueDeserializer, toml_edit::de::ValueDeserializer and toml_edit::Value::into_deserializer) must all succeed and return v; toml::Value::try_from(v) and toml::Table::try_from(v) must equal parsing the serialized text; for every text of the document universes seven routes into toml::Value / toml::Table must agree on success and on the tree; non-trivial = distinct serializable values and distinct accepted documents",
     );
     rep.assumptions = vec!["law-based oracle (routes agree, round trip), no reference model needed; NaN sign ignored on serde routes (documented normalisation)".into()];
     let t0 = std::time::Instant::now();
